@@ -48,10 +48,11 @@ for _c in ("InputCount", "Conservation", "WrittenCount", "WrittenMatchesFiles", 
 # a model-dependent clause on a read whose deviation is explained by stages that only other properties own
 # (that deviation is theirs to report).  Clauses that compare observations with observations are never filtered.
 OWNERS = {
-    "cut": {"C03", "C10"}, "nextseq": {"C13"}, "qtrim": {"C13"}, "polya": {"C14"}, "trimn": {"C14"},
-    "shorten": {"C03", "C10"}, "zerocap": {"C03", "C10"}, "name": {"C10"},
+    "cut": {"C10"}, "nextseq": {"C13"}, "qtrim": {"C13"}, "polya": {"C14"}, "trimn": {"C14"},
+    "shorten": {"C10"}, "zerocap": {"C03", "C10"}, "name": {"C10"},
     "orient": {"C16"}, "choice": {"C09", "C05"}, "action": {"C03"}, "adapter": {"C03", "C05", "C09", "C16"},
     "record": {"C05", "C09", "C15", "C16", "C17", "C20"},
+    "stages": {"C10"},                         # a modifier the options ask for is missing, or one is superfluous
     "filter": {"C05", "C11", "C15"},         # every modifier conforms locally but the destination differs: filters / sinks
 }
 # a crash (uncaught exception) is reported by the checks of the properties anchored in the file that raised it;
@@ -72,7 +73,8 @@ def explained_elsewhere(pid, e, clause, k):
     if clause in OBSERVATION_ONLY:
         return False
     blame = e.get("_blame") or {}
-    labs = set(blame.get(k, [])) if k is not None else set().union(*[set(v) for v in blame.values()]) if blame else set()
+    run_level = k is None or clause.startswith(("Stats", "Report.", "Demux."))     # (k is an adapter index there, or absent)
+    labs = (set().union(*[set(v) for v in blame.values()]) if blame else set()) if run_level else set(blame.get(k, []))
     if not labs:
         return False
     return not any(pid in OWNERS.get(lab, set()) for lab in labs)
